@@ -177,7 +177,47 @@ fn build<T: CellT>(g: &Value) -> TooDee<T> {
     TooDee::from_vec(nc, nr, make_items(&v))
 }
 
+/// an element type whose `==` never holds (like a NaN): equality of arrays must be decided cell by cell, never by identity
+#[derive(Clone)]
+struct NonRefl;
+impl PartialEq for NonRefl {
+    fn eq(&self, _: &NonRefl) -> bool {
+        false
+    }
+}
+
+fn run_eq_nonrefl(case: &Value) -> Vec<Fail> {
+    let mk = |g: &Value| -> TooDee<NonRefl> {
+        let nc = get_u64(g, "nc") as usize;
+        let nr = get_u64(g, "nr") as usize;
+        TooDee::from_vec(nc, nr, vec![NonRefl; nc * nr])
+    };
+    let a = mk(&case["a"]);
+    let b = mk(&case["b"]);
+    let exp = case["x"]["eq"].as_bool().unwrap();
+    let same = case["same"].as_bool().unwrap_or(false);
+    let (got, ne) = if same { (a == a, a != a) } else { (a == b, a != b) };
+    let mut fails = Vec::new();
+    if got != exp || ne == exp {
+        fails.push(Fail::new(0, "eq", json!({"a": case["a"], "b": case["b"], "non_reflexive_elements": true, "same_object": same,
+            "expected": exp, "observed": got, "ne": ne})));
+    }
+    fails
+}
+
 fn run_eq<T: CellT + Hash>(case: &Value) -> Vec<Fail> {
+    if !case["refl"].as_bool().unwrap_or(true) {
+        return run_eq_nonrefl(case);
+    }
+    if case["same"].as_bool().unwrap_or(false) {
+        let a: TooDee<T> = build(&case["a"]);
+        let exp = case["x"]["eq"].as_bool().unwrap() || !T::HAS_VALUE;
+        let mut fails = Vec::new();
+        if (a == a) != exp || (a != a) == exp {
+            fails.push(Fail::new(0, "eq", json!({"a": case["a"], "same_object": true, "expected": exp})));
+        }
+        return fails;
+    }
     let a: TooDee<T> = build(&case["a"]);
     let b: TooDee<T> = build(&case["b"]);
     let exp = if T::HAS_VALUE {
